@@ -380,9 +380,15 @@ Definition prepare_send_entries (r : raft) (m : msg) (pr : progress) (t : N) (en
 
 (* util::is_continuous_ents *)
 Definition is_continuous_ents (m : msg) (ents : list entry) : bool :=
-  match m_entries m, ents with
-  | _ :: _, e0 :: _ => e_index (List.last (m_entries m) entry_default) + 1 =? e_index e0
-  | _, _ => true
+  match ents with
+  | e0 :: _ =>
+      (* an empty message is anchored at its index: the entries must follow it *)
+      let anchor := match m_entries m with
+                    | [] => m_index m
+                    | _ => e_index (List.last (m_entries m) entry_default)
+                    end in
+      anchor + 1 =? e_index e0
+  | [] => true
   end.
 
 (* RaftCore::try_batching: result = (msgs', pr', is_batched) *)
@@ -498,8 +504,9 @@ Definition maybe_commit (r : raft) : Res (raft * bool) :=
   x <- RaftLog.maybe_commit (r_log r) mci (r_term r) ;;
   let '(l', b) := x in
   if b then
+    (* a leader that has removed itself is no longer tracked *)
     match get_pr r (r_id r) with
-    | None => Panic site_self_progress
+    | None => Ok (r <| r_log := l' |>, true)
     | Some pr => Ok (put_pr (r <| r_log := l' |>) (r_id r) (update_committed pr (committed l')), true)
     end
   else Ok (r <| r_log := l' |>, false).
@@ -1189,7 +1196,7 @@ Definition on_persist_entries (r : raft) (index t : N) : Res raft :=
   let r := r <| r_log := l' |> in
   if upd && is_leader r then
     match get_pr r (r_id r) with
-    | None => Panic site_self_progress
+    | None => Ok r   (* a leader that has removed itself is no longer tracked *)
     | Some pr =>
         let '(pr', u) := maybe_update pr index in
         let r := put_pr r (r_id r) pr' in
